@@ -277,6 +277,10 @@ def bilin_inv(
     y = np.zeros_like(f) + 0.5 * jmax
 
     for _t in range(maxiter):
+        # Keep the iterate inside the grid, a Newton step from the far away
+        # start point (narrow or very wide grids) may overshoot the boundary
+        x = np.clip(x, 0, imax - 1.000001)
+        y = np.clip(y, 0, jmax - 1.000001)
         i = x.astype("i")
         j = y.astype("i")
         p, q = x - i, y - j
